@@ -182,7 +182,7 @@ Inductive nevent :=
 | EGetJoin (r key : nat).      (* find_node(target of the key) and, in the same instant, a get of the key on the same node:
                                   the get joins the find_node lookup (lookups are keyed by target alone) and receives nothing *)
 
-Definition nstep (nt : net) (e : nevent) : net :=
+Definition nstep0 (nt : net) (e : nevent) : net :=
   match e with
   | EJoin s b => join nt s b
   | EDead => add_dead nt
@@ -204,3 +204,14 @@ Definition nstep (nt : net) (e : nevent) : net :=
                           else nd')
       else nt
   end.
+
+(* A node whose main table is empty asks its bootstrap nodes again in every loop iteration
+   (Actor::periodic_node_maintaenance: populate while the routing table is empty): whenever an event has made a
+   difference to what such a node can reach - somebody bootstrapped through it and sits in its signed-peers table now -
+   its next attempt succeeds. After every event each such node runs its bootstrap lookup again, in index order. *)
+Definition needs_retry (nd : nnode) : bool :=
+  n_alive nd && match n_main nd with [] => true | _ => false end && match n_boots nd with [] => false | _ => true end.
+Definition retry_one (acc : net) (i : nat) : net := if needs_retry (get acc i) then lookup acc i true None else acc.
+Definition retry_pass (nt : net) : net := fold_left retry_one (seq 0 (length nt)) nt.
+
+Definition nstep (nt : net) (e : nevent) : net := retry_pass (nstep0 nt e).
